@@ -122,7 +122,7 @@ def info(tier):
         "iteratively folded reference and pairwise; distinct = (kind, op, n, build) cells + canonical random recipes" % len(KINDS),
         "required_cells": [f"kind:{k}" for k in KINDS] + [f"op:{o}" for o in OPS] + [f"n:{n}" for n in (60, 120, 399, 400, 401, 450, 900, 5000, 20000)]
         + ["build:left-deep", "build:left-deep-fresh-leaves", "build:balanced", "build:vectorised", "obs:after-set", "obs:variables", "obs:degree", "obs:gradient", "obs:evaluate",
-           "obs:compiled-value", "obs:compiled-gradient", "obs:solve", "thresholds-lowered", "spelling:constant-minus-reduction", "spelling:quotient-of-reductions-at-zero-denominator"] + [f"outer:{f}" for f in R.FUNCS],
+           "obs:compiled-value", "obs:compiled-gradient", "obs:solve", "thresholds-lowered", "spelling:constant-minus-reduction", "spelling:quotient-of-reductions-at-zero-denominator", "spelling:heterogeneous-term-list", "spelling:constant-products-in-an-lp"] + [f"outer:{f}" for f in R.FUNCS],
         "assumptions": ["reference folds the term list iteratively (no recursion limit involved)",
                         "chains draw their terms from <= 8 variables (depth is what matters)"],
     }
@@ -519,6 +519,88 @@ def run_spellings(rec, rng, n):
             rec.violation("behaviour-at-a-singular-point-depends-on-the-association", {"form": qn, "n": n, "left_deep": outs.get("left-deep"), "balanced": outs.get("balanced")})
 
 
+def run_mixed_spellings(rec, rng, k):
+    """A heterogeneous term list (degrees 1, 2, non-polynomial in varying order) as a term-by-term sum, a balanced sum, and the
+    vectorised spellings w @ VectorExpression(terms), VectorExpression(terms).dot(w), VectorExpression(terms).sum(): degree,
+    linearity and solve results must not depend on the spelling.  And products of a variable with several constants in every
+    association, solved as an LP."""
+    import optyx
+    from optyx import analysis as AN
+    from optyx.core.vectors import VectorExpression
+
+    rec.case({"mixed-spellings": k})
+    x = optyx.VectorVariable("x", 4, lb=-1.0, ub=3.0)
+    pools = [
+        [x[0], x[1] ** 2, 3.0 * x[2] + 1.0, x[3]],
+        [2.0 * x[0], x[1], optyx.sin(x[2]), x[3] ** 2],
+        [x[0] + 1.0, x[1] * x[2], x[3], x[0] ** 3],
+        [x[0], x[1], x[2] - 2.0, 0.5 * x[3]],
+        [x[0] ** 2, x[1], x[2], x[3]],
+        [x[0], x[1], x[2], optyx.exp(x[3])],
+    ]
+    terms = pools[k % len(pools)]
+    ones = np.ones(len(terms))
+    spell = {
+        "left-deep": lambda: ((terms[0] + terms[1]) + terms[2]) + terms[3],
+        "balanced": lambda: (terms[0] + terms[1]) + (terms[2] + terms[3]),
+        "w@vexpr": lambda: ones @ VectorExpression(list(terms)),
+        "vexpr@w": lambda: VectorExpression(list(terms)) @ ones,
+        "vexpr.dot(w)": lambda: VectorExpression(list(terms)).dot(ones),
+        "vexpr.sum()": lambda: VectorExpression(list(terms)).sum(),
+        "dot(vexpr,vexpr-of-ones)": lambda: VectorExpression(list(terms)).dot(VectorExpression([optyx.Constant(1.0)] * len(terms))),
+    }
+    obs = {}
+    for name, mk in spell.items():
+        try:
+            e = mk()
+            obs[name] = {"degree": AN.compute_degree(e), "is_linear": bool(AN.is_linear(e)), "is_quadratic": bool(AN.is_quadratic(e)), "attr": e.degree}
+        except Exception as ex:
+            obs[name] = {"error": type(ex).__name__}
+    rec.cmp(len(obs), "spelling:heterogeneous-term-list")
+    ref_ = obs["left-deep"]
+    for name, o in obs.items():
+        if "error" in o:
+            rec.events["spelling-unsupported:" + name] += 1
+            continue
+        if "error" not in ref_ and o != ref_:
+            rec.violation("classification-depends-on-the-spelling-of-the-formula", {"terms": k % len(pools), "spelling": name, "got": o, "left_deep": ref_})
+    # a variable times several constants, every association, in an LP
+    c = [(1.5, 2.0, 0.5), (2.0, -1.0, 3.0), (0.5, 4.0, 1.0), (-1.0, 2.0, 2.0)]
+    K = optyx.Constant
+    assoc = {
+        "((x*p)*f)*t": lambda v, p, f, t: ((v * K(p)) * K(f)) * K(t),
+        "(x*p)*(f*t)": lambda v, p, f, t: (v * K(p)) * (K(f) * K(t)),
+        "(p*f)*(t*x)": lambda v, p, f, t: (K(p) * K(f)) * (K(t) * v),
+        "x*((p*f)*t)": lambda v, p, f, t: v * ((K(p) * K(f)) * K(t)),
+        "(p*(f*t))*x": lambda v, p, f, t: (K(p) * (K(f) * K(t))) * v,
+        "(x*(p+0))*(f*t)": lambda v, p, f, t: (v * (K(p) + K(0.0))) * (K(f) * K(t)),
+    }
+    want_c = np.array([p * f * t for p, f, t in c])
+    results = {}
+    for name, mk in assoc.items():
+        try:
+            obj = None
+            for i, (p, f, t) in enumerate(c):
+                term = mk(x[i], p, f, t)
+                obj = term if obj is None else obj + term
+            P = optyx.Problem().maximize(obj).subject_to(x.sum() <= 4.0)
+            with warnings.catch_warnings():
+                warnings.simplefilter("ignore")
+                sol = P.solve(method="highs-ds" if k % 2 else "auto")
+            results[name] = (sol.status.value, None if sol.objective_value is None else round(float(sol.objective_value), 9))
+        except Exception as ex:
+            results[name] = ("raises", type(ex).__name__)
+    rec.cmp(len(results), "spelling:constant-products-in-an-lp")
+    # closed form: maximise want_c . x over the box [-1,3]^4 with sum x <= 4 (solved by hand through scipy on the data)
+    from scipy.optimize import linprog
+
+    r = linprog(-want_c, A_ub=np.ones((1, 4)), b_ub=[4.0], bounds=[(-1.0, 3.0)] * 4, method="highs")
+    want = ("optimal", round(float(-r.fun), 9))
+    for name, got in results.items():
+        if got != want and not (got[0] == "optimal" and got[1] is not None and abs(got[1] - want[1]) <= 1e-7 * (1 + abs(want[1]))):
+            rec.violation("lp-result-depends-on-the-association-of-constant-products", {"association": name, "got": got, "want": want})
+
+
 def with_thresholds(value, fn):
     from optyx import analysis as AN
     from optyx.core import autodiff as AD
@@ -669,6 +751,10 @@ def run(ctx, rec):
         i += 1
         if ctx.mine(i):
             run_spellings(rec, rng, n)
+    for k_ in range(12):
+        i += 1
+        if ctx.mine(i):
+            run_mixed_spellings(rec, rng, k_)
     lowered_thresholds(rec, rng, N_RANDOM[ctx.tier])
 
 
